@@ -1,5 +1,5 @@
 (** Extraction of the kernel models (ExtrOcamlBasic only; Z stays inductive). *)
 From Coq Require Import Extraction ExtrOcamlBasic ZArith.
-From AwkKernels Require Import Kernels.
+From AwkKernels Require Import Kernels Kernels2.
 Extraction Language OCaml.
-Extraction "kmodel.ml" run Z.add Z.mul Z.sub Z.div Z.modulo Z.opp.
+Extraction "kmodel.ml" run run2 Z.add Z.mul Z.sub Z.div Z.modulo Z.opp.
